@@ -227,6 +227,7 @@ BIT_FORMS = [
 
 def tree_cases(tier):
     cases = []
+    thorough = tier != "quick"
 
     def T(t, both=True, txin=False):
         e = enc(t)
@@ -302,11 +303,12 @@ def tree_cases(tier):
         T(base_tx(bits=[[b, "aa"]])); T(base_tx(bits=[["OP_PUSHDATA1", b]]))
         T(base_tx(bits=[M([("code", b), ("pass", []), ("fail", None)])])); T(base_tx(bits=[M([("code", "OP_IF"), ("pass", [b]), ("fail", [b])])]))
         T(base_tx(bits=[M([(b, None)])]), both=True)
-        T(base_tx(outs=[with_val(base_out(), "script_pub_key", [b])])); T(base_tx(ins=[with_val(base_in(), "unlocking_script", [b])]))
-        T(base_tx(ins=[with_val(base_in(), "prev_tx_id", b)]))
+        T(base_tx(outs=[with_val(base_out(), "script_pub_key", [b])]), both=thorough)
+        T(base_tx(ins=[with_val(base_in(), "unlocking_script", [b])]), both=thorough)
+        T(base_tx(ins=[with_val(base_in(), "prev_tx_id", b)]), both=thorough)
     names = opcode_names()
     for nm in names:
-        T(base_tx(bits=[nm.lower()])); T(base_tx(bits=[nm[3:]]))
+        T(base_tx(bits=[nm.lower()])); T(base_tx(bits=[nm[3:]]), both=thorough)
     T(base_tx(bits=names[:60])); T(base_tx(bits=names[60:])); T(base_in(bits=names[:60]), txin=True)
     T(base_tx(bits=[[nm, ""] for nm in names[:40]]))
     # hex text of a push on both sides of ciborium's scratch buffer
@@ -434,7 +436,9 @@ def audit_cases(A, both, tier, rng):
     for v in bvars:
         for code in ("OP_IF", "OP_NOTIF", "OP_VERIF", "OP_VERNOTIF"):
             forms = [v] if code == "OP_IF" else []
-            forms += ["i%s,%s,z" % (code, v), "i%s,e,%s,z" % (code, v), "i%s,%s,e,%s,z" % (code, v, v)]
+            if tier != "quick" or code in ("OP_IF", "OP_NOTIF"):
+                forms += ["i%s,%s,z" % (code, v), "i%s,e,%s,z" % (code, v)]
+            forms += ["i%s,%s,e,%s,z" % (code, v, v)]
             for t in forms:
                 A("bits.json_roundtrip", t); A("bits.cbor_roundtrip", t); A("bits.txin_cbor_roundtrip", t)
     # -- u32 fields: 0, top bit set, all ones - in every field separately, whole tx and lone input, texts and bytes
